@@ -76,8 +76,9 @@ class Columns(JupyterMixin):
         column_count = len(renderables)
 
         get_measurement = Measurement.get
+        # A table column is never narrower than one cell, even if its content is empty
         renderable_widths = [
-            get_measurement(console, renderable, max_width).maximum
+            get_measurement(console, renderable, max_width).maximum or 1
             for renderable in renderables
         ]
         if self.equal:
